@@ -60,7 +60,7 @@ Proof.
     + rewrite D2. repeat split.
     + rewrite D2 in A2. discriminate.
   - right; left. destruct (lp_fin _ _ _ L i Hi Ax A2) as (tcb & u & Hin).
-    exists tcb, (g_u0 (slot_at s1 i)), u. rewrite E7, O3. right. exact Hin.
+    exists tcb, (g_u0 (slot_at s1 i)), u. rewrite E7, O3. apply in_cons. unfold finish_of in Hin. exact Hin.
 Qed.
 
 (* ---------- arming and disarming ---------- *)
@@ -72,15 +72,17 @@ Proof.
   apply find_slot_some in EF. destruct EF as (R & Ech & _). replace (i - 0) with i in * by lia.
   pose proof (frame_uptime s) as FU. assert (Su : slots (fst (uptime_msec s)) = slots s) by (unfold uptime_msec, uptime_usec; reflexivity).
   destruct (uptime_msec s) as [s1 u]. cbn [fst] in *.
-  intros x Hx Ax. left. exists x. split; [|split; [auto|apply same_id_refl]].
-  destruct (startstop_same (t2_set ch ms (set_slots (upd (slots s1) (Z.to_nat i)
-     {| s_chan := ch; s_left := ms; s_last := u; s_gpio := gpio; s_target := tg; s_sender := sd; g_t0 := now s; g_dur := ms; g_u0 := u; g_tl := now s |})
-     (emit (GArm (now s) ch ms tg) s1)))) as (E1 & _). rewrite E1.
-  rewrite (pa_slots _ _ (passive_t2_set ch ms _)). cbn [slots set_slots emit set_outs]. rewrite Su.
+  set (ynew := {| s_chan := ch; s_left := ms; s_last := u; s_gpio := gpio; s_target := tg; s_sender := sd; g_t0 := now s; g_dur := ms; g_u0 := u; g_tl := now s |}).
+  set (s2 := set_slots (upd (slots s1) (Z.to_nat i) ynew) (emit (GArm (now s) ch ms tg) s1)).
+  assert (E : slots (startstop (t2_set ch ms s2)) = upd (slots s) (Z.to_nat i) ynew).
+  { destruct (startstop_same (t2_set ch ms s2)) as (E1 & _). rewrite E1. rewrite (pa_slots _ _ (passive_t2_set ch ms s2)).
+    unfold s2. cbn [slots set_slots emit set_outs]. rewrite Su. reflexivity. }
+  intros x Hx Ax. left. exists x. split; [|split; [auto|apply same_id_refl]]. rewrite E.
   destruct (In_nth _ _ slot_free Hx) as (j & Hj & Ej).
   assert (j <> Z.to_nat i).
   { intros ->. rewrite Ej in Ech. unfold active in Ax. rewrite Ech in Ax. cbn in Ax. discriminate. }
-  rewrite <- Ej. rewrite <- (nth_upd_ne (slots s) (Z.to_nat i) j _ slot_free) by auto. apply nth_In. rewrite upd_length. auto.
+  assert (HI : In (nth j (upd (slots s) (Z.to_nat i) ynew) slot_free) (upd (slots s) (Z.to_nat i) ynew)) by (apply nth_In; rewrite upd_length; auto).
+  rewrite nth_upd_ne in HI by auto. rewrite Ej in HI. exact HI.
 Qed.
 Lemma disarm_fate c ch s : fate (fun k => k = ch) s (disarm c ch s).
 Proof.
@@ -101,4 +103,394 @@ Proof.
     destruct (chflags_of _ _ _); [destruct (hasf _ _)|]; auto. eapply passive_trans; [exact P2|apply passive_ext_changed]. }
   eapply fate_trans; [|exact F1|apply fate_passive; exact P2].
   destruct (pa_outs _ _ P2) as (a & Ea & _). exists a. exact Ea.
+Qed.
+
+(* ---------- commands ---------- *)
+Lemma countdown_fate e c ms gpio ch target sender s s' :
+  s' = countdown e c ms gpio ch target sender s ->
+  Good s -> 0 <= ch < 255 -> (forall x, In x (slots s) -> s_chan x <> ch) -> NW s' ->
+  fate (fun _ => False) s s'.
+Proof.
+  intros Es' G Hch NoCh N. unfold countdown in Es'. destruct e; [|rewrite Es'; apply arm_slot_fate; auto].
+  remember (cd_cb c (if t_on (tcd s) then t_due (tcd s) else now s) s) as s0 eqn:Es0.
+  assert (F0' : frame s0 s') by (rewrite Es'; apply arm_slot_frame).
+  assert (N0 : NW s0) by (eapply NW_frame; eauto).
+  destruct (cd_cb_spec c _ s s0 Es0 (g_inv _ G) (g_tr _ G) N0) as (G0 & F0 & Nw0 & EV & _ & _).
+  pose proof (evald_nochan s s0 ch Hch (g_inv _ G) (i_len _ (g_inv _ G0)) EV NoCh) as NoCh0.
+  apply (fate_trans _ s s0 s'); [apply frame_outs; auto|apply (cd_cb_fate c _ s s0 Es0 (g_inv _ G) (g_tr _ G) N0)|].
+  rewrite Es'. apply arm_slot_fate; auto.
+Qed.
+
+Lemma sdt_fate e c ch newv dur sender s s' :
+  s' = set_duration_timer e c ch newv dur sender s ->
+  wf_cfg c -> Good s -> 0 <= ch < 8 -> dur < 4294967296 -> NW s' ->
+  fate (fun k => k = ch) s s'.
+Proof.
+  intros Es' W G Hch Hdur N. unfold set_duration_timer in Es'.
+  set (stair := (ch <? ST_T2_COUNT) && (ch <? T2_COUNT) && (0 <? getz (time2 s) ch)) in *.
+  remember (if stair && (newv =? 0) then set_ram_t2 (setz (ram_t2 s) ch 0) s else s) as s0 eqn:Es0.
+  set (dur1 := if stair then _ else dur) in *.
+  assert (P0 : passive s s0) by (subst s0; destruct (stair && (newv =? 0)); [apply passive_set_ram_t2|apply passive_refl]).
+  assert (Hd1 : dur1 < 4294967296).
+  { unfold dur1. destruct stair; auto. destruct (newv =? 0); [lia|]. destruct (_ || _); auto.
+    pose proof (s32_range (getz (time2 s) ch)). lia. }
+  rewrite u8_small in Es' by lia.
+  pose proof (Good_passive _ _ P0 G) as G0.
+  destruct (disarm_spec c ch s0 ltac:(lia) G0) as (G1 & F1 & D1 & C1 & N1 & NoCh & E1 & _).
+  pose proof (disarm_fate c ch s0) as FD.
+  remember (disarm c ch s0) as s1 eqn:Es1. clear Es1.
+  assert (F01 : fate (fun k => k = ch) s s1).
+  { apply (fate_trans _ s s0 s1); [apply frame_outs; auto|apply fate_passive; auto|auto]. }
+  destruct (0 <? dur1) eqn:Ed; [|subst s'; auto]. apply Z.ltb_lt in Ed.
+  destruct (find_chan (c_relays c) 0 ch) as [[a r]|] eqn:EFC; [|subst s'; auto].
+  set (f := getz (chfl s1) a) in *.
+  remember (if (newv =? 1) || hasf f CHFLAG_COUNTDOWN
+            then countdown e c (u32 dur1) (r_gpio r) ch (if newv =? 0 then 1 else 0) sender s1 else s1) as s2 eqn:Es2.
+  assert (P23 : passive s2 s') by (subst s'; destruct (hasf f _); [apply passive_ext_changed|apply passive_refl]).
+  assert (N2 : NW s2) by (eapply NW_passive; eauto).
+  assert (F12 : fate (fun k => k = ch) s1 s2 /\ exists a0, outs s2 = a0 ++ outs s1).
+  { destruct ((newv =? 1) || hasf f CHFLAG_COUNTDOWN).
+    - split; [|apply frame_outs; rewrite Es2; apply countdown_frame].
+      eapply fate_weaken; [|eapply countdown_fate; eauto; lia]. intros k [].
+    - subst s2. split; [apply fate_refl|exists []; reflexivity]. }
+  destruct F12 as [F12 O12].
+  apply (fate_trans _ s s1 s'); [|exact F01|].
+  - destruct O12 as (a0 & Ea). destruct (pa_outs _ _ P23) as (b & Eb & _). exists (b ++ a0). rewrite Eb, Ea, app_assoc. reflexivity.
+  - apply (fate_trans _ s1 s2 s'); [destruct (pa_outs _ _ P23) as (b & Eb & _); exists b; auto|exact F12|apply fate_passive; auto].
+Qed.
+
+Lemma csv_fate e c ch v dur sender s s' :
+  s' = channel_set_value e c ch v dur sender s -> wf_cfg c -> Good s -> NW s' -> fate (fun k => k = ch) s s'.
+Proof.
+  intros Es' W G N. unfold channel_set_value in Es'.
+  destruct (find_chan (c_relays c) 0 ch) as [[a r]|] eqn:EFC.
+  2:{ apply fate_passive. subst s'. apply passive_set_result. }
+  destruct (find_chan_some _ _ _ _ _ EFC) as [Hr Er]. pose proof (wf_chan _ W r Hr) as Hc. rewrite Er in *.
+  remember (set_duration_timer e c ch v (s32 dur) sender s) as s1 eqn:Es1.
+  pose proof (passive_chan_set_value c (r_gpio r) v ch s1) as P12.
+  destruct (chan_set_value c (r_gpio r) v ch s1) as [s2 ok]. cbn [fst] in *.
+  assert (P2' : passive s2 s') by (subst s'; apply passive_set_result).
+  pose proof (passive_trans _ _ _ P12 P2') as P1'.
+  assert (N1 : NW s1) by (eapply NW_passive; eauto).
+  pose proof (s32_range dur).
+  apply (fate_trans _ s s1 s'); [destruct (pa_outs _ _ P1') as (b & Eb & _); exists b; auto| |apply fate_passive; auto].
+  eapply sdt_fate; eauto. lia.
+Qed.
+
+Lemma rsw_fate e c port hi s s' :
+  s' = relay_switch e c port hi s -> wf_cfg c -> Good s -> NW s' ->
+  fate (fun k => k = last_chan (c_relays c) port (-1)) s s'.
+Proof.
+  intros Es' W G N. unfold relay_switch in Es'. set (ch := last_chan (c_relays c) port (-1)) in *.
+  destruct (ch <? 0) eqn:Ec; [subst s'; apply fate_refl|]. apply Z.ltb_ge in Ec.
+  destruct (last_chan_spec (c_relays c) port (-1) (or_intror Logic.I)) as [E|(r & Hr & Er & _)]; [fold ch in E; lia|].
+  fold ch in Er. pose proof (wf_chan _ W r Hr) as Hc. rewrite Er in Hc.
+  destruct (cf_t2 consts_ok) as [CT1 CT2].
+  set (hi1 := if _ && _ && _ && _ then HI else hi) in *.
+  set (hi2 := if hi1 =? 255 then _ else hi1) in *.
+  assert (Lt : (ch <? ST_T2_COUNT) = true) by (apply Z.ltb_lt; lia). rewrite Lt in Es'.
+  remember (set_ram_t2 (setz (ram_t2 s) ch 0) s) as s0 eqn:Es0.
+  assert (P0 : passive s s0) by (subst s0; apply passive_set_ram_t2).
+  remember (set_duration_timer e c ch hi2 0 0 s0) as s1 eqn:Es1.
+  remember (relay_hi c port hi2 s1) as s2 eqn:Es2.
+  assert (P12 : passive s1 s2) by (subst s2; apply passive_relay_hi).
+  assert (P2' : passive s2 s') by (subst s'; apply passive_value_changed).
+  pose proof (passive_trans _ _ _ P12 P2') as P1'.
+  assert (N1 : NW s1) by (eapply NW_passive; eauto).
+  pose proof (sdt_fate e c ch hi2 0 0 s0 s1 Es1 W (Good_passive _ _ P0 G) Hc ltac:(lia) N1) as F01.
+  apply (fate_trans _ s s0 s').
+  - destruct (pa_outs _ _ P1') as (b & Eb & _). destruct (frame_outs _ _ (sdt_frame e c ch hi2 0 0 s0)) as (a & Ea). rewrite <- Es1 in Ea.
+    exists (b ++ a). rewrite Eb, Ea, app_assoc. reflexivity.
+  - apply fate_passive; auto.
+  - apply (fate_trans _ s0 s1 s'); [destruct (pa_outs _ _ P1') as (b & Eb & _); exists b; auto|auto|apply fate_passive; auto].
+Qed.
+
+(* ---------- timers, steps, histories ---------- *)
+Lemma fire_fate e c i s s' :
+  s' = fire e c i s -> wf_cfg c -> Good s -> t_on (get_t i s) = true -> NW s' -> fate (fun _ => False) s s'.
+Proof.
+  intros Es' W G Hon N. unfold fire in Es'.
+  set (t := get_t i s) in *. set (n := len (c_late c)) in *.
+  set (late := if 0 <? n then getz (c_late c) (li s mod n) else 0) in *.
+  remember (if 0 <? n then set_li (li s + 1) s else s) as s1 eqn:Es1.
+  remember (if now s1 <? t_due t + late then set_now (t_due t + late) s1 else s1) as s2 eqn:Es2.
+  remember (if negb (t_per t =? 0)
+            then set_t i {| t_on := true; t_due := t_due t + t_per t; t_seq := seqc s2 + 1; t_per := t_per t |} (set_seqc (seqc s2 + 1) s2)
+            else set_t i {| t_on := false; t_due := t_due t; t_seq := t_seq t; t_per := 0 |} s2) as s3 eqn:Es3.
+  assert (A3 : slots s3 = slots s /\ outs s3 = outs s).
+  { subst s3 s2 s1. destruct (negb _); destruct i; cbn [set_t]; destruct (_ <? t_due t + late); destruct (0 <? n); split; reflexivity. }
+  destruct A3 as [c1 c7].
+  (* Good s3 as in fire_spec *)
+  assert (G3 : Good s3 /\ frame s s3).
+  { assert (Hs : s' = fire e c i s) by (unfold fire; fold t n late; rewrite <- Es1, <- Es2, <- Es3; exact Es').
+    clear Hs. 
+    assert (A1 : slots s1 = slots s /\ delay s1 = delay s /\ cnt0 s1 = cnt0 s /\ tb s1 = tb s /\ upc s1 = upc s /\ upl s1 = upl s /\
+               outs s1 = outs s /\ now s1 = now s /\ tcd s1 = tcd s)
+      by (subst s1; destruct (0 <? n); repeat split; reflexivity).
+    destruct A1 as (a1 & a2 & a3 & a4 & a5 & a6 & a7 & a8 & a9).
+    assert (A2 : slots s2 = slots s /\ delay s2 = delay s /\ cnt0 s2 = cnt0 s /\ tb s2 = tb s /\ upc s2 = upc s /\ upl s2 = upl s /\
+               outs s2 = outs s /\ now s <= now s2 /\ tcd s2 = tcd s).
+    { subst s2. destruct (now s1 <? t_due t + late) eqn:E; [apply Z.ltb_lt in E|]; cbn;
+        rewrite ?a1, ?a2, ?a3, ?a4, ?a5, ?a6, ?a7, ?a8, ?a9; repeat split; auto; try lia. }
+    destruct A2 as (b1 & b2 & b3 & b4 & b5 & b6 & b7 & b8 & b9).
+    assert (TM : TmrOK s) by apply G. destruct TM as (D0 & Dz & Dp).
+    assert (A3 : delay s3 = delay s /\ cnt0 s3 = cnt0 s /\ tb s3 = tb s /\ upc s3 = upc s /\ upl s3 = upl s /\ now s <= now s3 /\
+                 (t_on (tcd s3) = t_on (tcd s) /\ t_per (tcd s3) = t_per (tcd s))).
+    { subst s3. destruct i; cbn [set_t]; unfold t, get_t in *.
+      - assert (0 < delay s) by (destruct (Z.eq_dec (delay s) 0) as [Z0|]; [rewrite (Dz Z0) in Hon; discriminate|lia]).
+        destruct (Dp H) as [_ Pp]. assert (t_per (tcd s) <> 0) by lia.
+        destruct (t_per (tcd s) =? 0) eqn:E0; [apply Z.eqb_eq in E0; lia|]. cbn.
+        rewrite b2, b3, b4, b5, b6. repeat split; auto.
+      - destruct (negb _); cbn; rewrite b2, b3, b4, b5, b6, b9; repeat split; auto.
+      - destruct (negb _); cbn; rewrite b2, b3, b4, b5, b6, b9; repeat split; auto. }
+    destruct A3 as (d2 & d3 & d4 & d5 & d6 & d8 & d9).
+    split; [eapply Good_tick; eauto|]. constructor; auto. exists []. auto. }
+  destruct G3 as [G3 F3].
+  unfold run_cb in Es'. destruct i.
+  - apply (fate_trans _ s s3 s'); [apply frame_outs; rewrite Es'; apply cd_cb_frame|apply fate_same_slots; auto|].
+    apply (cd_cb_fate c _ s3 s' Es' (g_inv _ G3) (g_tr _ G3) N).
+  - apply fate_same_slots. subst s'. cbn. exact c1.
+  - apply fate_same_slots. subst s'. unfold uptime_usec. cbn. exact c1.
+Qed.
+
+Lemma adv_fate e c fuel : forall end_ s s',
+  s' = adv e c fuel end_ s -> wf_cfg c -> Good s -> NW s' -> fate (fun _ => False) s s'.
+Proof.
+  induction fuel as [|k IH]; intros end_ s s' Es' W G N; cbn [adv] in Es'.
+  - apply fate_same_slots. subst s'. reflexivity.
+  - destruct (pick s end_) as [i|] eqn:EP; [|subst s'; apply fate_refl].
+    apply pick_some in EP. unfold due_ok in EP. apply andb_true_iff in EP. destruct EP as [Hon _].
+    remember (fire e c i s) as s1 eqn:Es1.
+    assert (F1' : frame s1 s') by (subst s'; apply adv_frame).
+    assert (N1 : NW s1) by (eapply NW_frame; eauto).
+    destruct (fire_spec e c i s s1 Es1 W G Hon N1) as (G1 & _ & _).
+    apply (fate_trans _ s s1 s'); [apply frame_outs; auto|eapply fire_fate; eauto|eapply IH; eauto].
+Qed.
+Lemma advance_fate e c dt s s' :
+  s' = advance e c dt s -> wf_cfg c -> Good s -> NW s' -> fate (fun _ => False) s s'.
+Proof.
+  intros Es' W G N. unfold advance in Es'.
+  remember (adv e c (Z.to_nat (dt / 20000 + 64)) (now s + dt) s) as s1 eqn:Es1.
+  destruct (now s1 <? now s + dt) eqn:E; [apply Z.ltb_lt in E|].
+  - assert (N1 : NW s1). { subst s'. unfold NW in *. cbn in N. lia. }
+    apply (fate_trans _ s s1 s'); [subst s'; exists []; reflexivity|eapply adv_fate; eauto|apply fate_same_slots; subst s'; reflexivity].
+  - subst s'. eapply adv_fate; eauto.
+Qed.
+
+Lemma step_fate e c s x s' :
+  s' = step e c s x -> wf_cfg c -> wf_ev x -> Good s -> NW s' -> fate (ev_chan c x) s s'.
+Proof.
+  intros Es' W Wx G N. unfold step in Es'.
+  set (s1 := match x with ESet _ _ _ _ => _ | _ => _ end) in *.
+  assert (P : passive s1 s') by (subst s'; apply passive_emit; exact Logic.I).
+  assert (N1 : NW s1) by (eapply NW_passive; eauto).
+  apply (fate_trans _ s s1 s'); [destruct (pa_outs _ _ P) as (b & Eb & _); exists b; auto| |apply fate_passive; auto].
+  destruct x; unfold s1 in *; cbn [ev_chan].
+  - eapply csv_fate; eauto.
+  - eapply rsw_fate; eauto.
+  - eapply fate_weaken; [|eapply advance_fate; eauto]. intros k [].
+  - intros y Hy Ay. right; right. exact Logic.I.
+  - destruct (_ && _); [apply fate_same_slots; reflexivity|apply fate_refl].
+  - apply fate_same_slots; reflexivity.
+  - apply fate_same_slots; reflexivity.
+Qed.
+
+(* a history without a command on channel ch and without a restart *)
+Lemma run_fate e c ch : forall post s,
+  wf_cfg c -> Forall wf_ev post -> (forall x, In x post -> ~ ev_chan c x ch) -> Good s -> NWrun e c s post ->
+  fate (fun k => k <> ch) s (run_from e c s post).
+Proof.
+  induction post as [|x post IH]; intros s W Wp NC G N; [apply fate_refl|].
+  change (run_from e c s (x :: post)) with (run_from e c (step e c s x) post).
+  apply NWrun_cons in N. destruct N as [N1 N2]. inversion Wp; subst.
+  destruct (step_spec e c s x _ eq_refl W H1 G N1) as (G1 & _).
+  apply (fate_trans _ s (step e c s x) _); [apply run_outs; auto| |apply IH; auto].
+  - eapply fate_weaken; [|eapply step_fate; eauto]. intros k Hk E. subst k. apply (NC x); cbn; auto.
+  - intros y Hy. apply NC. cbn; auto.
+Qed.
+
+(* ---------- exactly once ---------- *)
+(* (repaired countdown) A slot armed at t0 for dur ms on channel ch: if no command on ch and no restart follows and an
+   advance then reaches t0 + dur + 50 ms + 8 relay operations, the trace contains a switch-back of that arming, and no
+   arming has two switch-backs. *)
+Theorem exactly_once_thm c S s x post dt :
+  wf_cfg c -> Good s -> J true S s -> 0 <= S -> In x (slots s) -> active x = true ->
+  Forall wf_ev post -> (forall ev, In ev post -> ~ ev_chan c ev (s_chan x)) -> 0 <= dt ->
+  let s1 := run_from true c s post in
+  let s2 := step true c s1 (EAdv dt) in
+  NWrun true c s (post ++ [EAdv dt]) -> Slack S (outs s2) -> ~ In OFuel (outs s2) ->
+  g_t0 x + g_dur x * 1000 + CD_MIN * 1000 + 8 * OP <= now s1 + dt ->
+  fin_in x (outs s2) /\ NoDup (fins (outs s2)).
+Proof.
+  intros W G Jj HS Hx Ax Wp NC Hdt s1 s2 N SL NF Dl.
+  assert (Wp' : Forall wf_ev (post ++ [EAdv dt])) by (apply Forall_app; split; [exact Wp|]; constructor; [exact Hdt|constructor]).
+  assert (NC' : forall ev, In ev (post ++ [EAdv dt]) -> ~ ev_chan c ev (s_chan x)).
+  { intros ev Hin. apply in_app_or in Hin. destruct Hin as [Hin|[<-|[]]]; [apply NC; auto|cbn; auto]. }
+  pose proof (run_fate true c (s_chan x) (post ++ [EAdv dt]) s W Wp' NC' G N) as F.
+  rewrite run_from_app in F. fold s1 in F. change (run_from true c s1 [EAdv dt]) with s2 in F.
+  apply NWrun_app in N. destruct N as [Npost Nadv]. fold s1 in Nadv.
+  assert (N2 : NW s2) by (apply (Nadv 1%nat)).
+  assert (SL1 : Slack S (outs s1)).
+  { destruct (step_outs true c s1 (EAdv dt) Hdt) as (a & Ea). fold s2 in Ea. rewrite Ea in SL. eapply Slack_app; eauto. }
+  destruct (run_J true S c post s W Wp G Jj Npost SL1 HS) as (G1 & J1). fold s1 in G1, J1.
+  destruct (step_spec true c s1 (EAdv dt) s2 eq_refl W Hdt G1 N2) as (G2 & _).
+  split; [|apply (tr_uniq _ (g_tr _ G2))].
+  destruct (F x Hx Ax) as [(y & Hy & Ay & Iy)|[Fi|Ne]]; [|exact Fi|congruence].
+  exfalso.
+  (* y still runs after the advance: impossible beyond the deadline *)
+  unfold s2, step in *. set (sa := advance true c dt s1) in *.
+  assert (Pq : passive sa (emit (st_line c sa) sa)) by (apply passive_emit; exact Logic.I).
+  assert (Na : NW sa) by (eapply NW_passive; eauto).
+  assert (SLa : Slack S (outs sa)) by (eapply Slack_frame; [apply frame_passive; exact Pq|exact SL]).
+  assert (NFa : ~ In OFuel (outs sa)) by (intros H; apply NF; cbn; auto).
+  cbn [slots emit set_outs] in Hy.
+  pose proof (fires_by_thm c S s1 dt W Hdt G1 J1 HS Na SLa NFa y Hy Ay) as B.
+  destruct Iy as (_ & E0 & Ed & _). rewrite <- E0, <- Ed in B. lia.
+Qed.
+
+(* ---------- cancellation, including the handler of the command itself: it disarms before it evaluates ---------- *)
+Definition nofin_ch (ch t : Z) (add : list out) : Prop :=
+  forall tcb tg t0 dur u0 u, In (GFinish tcb ch tg t0 dur u0 u) add -> t <= t0.
+Lemma nofin_noghost ch t add : Forall noghost add -> nofin_ch ch t add.
+Proof. intros F tcb tg t0 dur u0 u H. rewrite Forall_forall in F. apply F in H. contradiction. Qed.
+Lemma nofin_app ch t a b : nofin_ch ch t a -> nofin_ch ch t b -> nofin_ch ch t (a ++ b).
+Proof. intros A B tcb tg t0 dur u0 u H. apply in_app_or in H. destruct H; [eapply A|eapply B]; eauto. Qed.
+
+Lemma sdt_nofin e S c ch newv dur sender s s' :
+  s' = set_duration_timer e c ch newv dur sender s ->
+  wf_cfg c -> Good s -> J e S s -> 0 <= ch < 8 -> dur < 4294967296 -> NW s' -> Slack S (outs s') -> 0 <= S ->
+  exists add, outs s' = add ++ outs s /\ nofin_ch ch (now s) add.
+Proof.
+  intros Es' W G Jj Hch Hdur N SL HS. unfold set_duration_timer in Es'.
+  set (stair := (ch <? ST_T2_COUNT) && (ch <? T2_COUNT) && (0 <? getz (time2 s) ch)) in *.
+  remember (if stair && (newv =? 0) then set_ram_t2 (setz (ram_t2 s) ch 0) s else s) as s0 eqn:Es0.
+  set (dur1 := if stair then _ else dur) in *.
+  assert (P0 : passive s s0) by (subst s0; destruct (stair && (newv =? 0)); [apply passive_set_ram_t2|apply passive_refl]).
+  assert (Hd1 : dur1 < 4294967296).
+  { unfold dur1. destruct stair; auto. destruct (newv =? 0); [lia|]. destruct (_ || _); auto.
+    pose proof (s32_range (getz (time2 s) ch)). lia. }
+  rewrite u8_small in Es' by lia.
+  pose proof (Good_passive _ _ P0 G) as G0.
+  destruct (JF_passive e S _ _ P0 G Jj) as [J0 _].
+  destruct (disarm_spec c ch s0 ltac:(lia) G0) as (G1 & F1 & D1 & C1 & N1 & NoCh & E1 & (ad & Od & NGd)).
+  destruct (disarm_J e S c ch s0 ltac:(lia) G0 J0) as [J1 _].
+  remember (disarm c ch s0) as s1 eqn:Es1. clear Es1.
+  destruct (pa_outs _ _ P0) as (a0 & O0 & NG0).
+  assert (N01 : now s1 = now s0 /\ now s <= now s0) by (split; [auto|apply P0]). destruct N01 as [N01 N00].
+  assert (Base : exists add, outs s1 = add ++ outs s /\ nofin_ch ch (now s) add).
+  { exists (ad ++ a0). split; [rewrite Od, O0, app_assoc; reflexivity|]. apply nofin_app; apply nofin_noghost; auto. }
+  destruct (0 <? dur1) eqn:Ed; [|subst s'; auto]. apply Z.ltb_lt in Ed.
+  destruct (find_chan (c_relays c) 0 ch) as [[a r]|] eqn:EFC; [|subst s'; auto].
+  set (f := getz (chfl s1) a) in *.
+  remember (if (newv =? 1) || hasf f CHFLAG_COUNTDOWN
+            then countdown e c (u32 dur1) (r_gpio r) ch (if newv =? 0 then 1 else 0) sender s1 else s1) as s2 eqn:Es2.
+  assert (P23 : passive s2 s') by (subst s'; destruct (hasf f _); [apply passive_ext_changed|apply passive_refl]).
+  assert (N2 : NW s2) by (eapply NW_passive; eauto).
+  assert (SL2 : Slack S (outs s2)) by (eapply Slack_frame; [apply frame_passive; exact P23|auto]).
+  assert (H2 : exists a2, outs s2 = a2 ++ outs s1 /\ nofin_ch ch (now s) a2).
+  { destruct ((newv =? 1) || hasf f CHFLAG_COUNTDOWN).
+    - rewrite u32_small in Es2 by lia.
+      destruct (countdown_J e S c dur1 (r_gpio r) ch _ sender s1 s2 Es2 G1 J1 ltac:(lia) ltac:(lia) NoCh N2 SL2 HS) as (_ & (a2 & O2 & Sr)).
+      exists a2. split; auto. intros tcb tg t0 dr u0 u H.
+      destruct (Sr _ _ _ _ _ _ _ H) as [(x & Hx & _ & Ec & _)|Hl]; [exfalso; apply (NoCh x Hx Ec)|lia].
+    - subst s2. exists []. split; [reflexivity|]. intros tcb tg t0 dr u0 u []. }
+  destruct H2 as (a2 & O2 & NF2). destruct Base as (ab & Ob & NFb). destruct (pa_outs _ _ P23) as (a3 & O3 & NG3).
+  exists (a3 ++ a2 ++ ab). split; [rewrite O3, O2, Ob, !app_assoc; reflexivity|].
+  apply nofin_app; [apply nofin_noghost; auto|apply nofin_app; auto].
+Qed.
+
+(* a command event on channel ch: its own handler emits no switch-back of a timer of ch armed before it *)
+Lemma csv_nofin e S c ch v dur sender s s' :
+  s' = channel_set_value e c ch v dur sender s ->
+  wf_cfg c -> Good s -> J e S s -> NW s' -> Slack S (outs s') -> 0 <= S ->
+  exists add, outs s' = add ++ outs s /\ nofin_ch ch (now s) add.
+Proof.
+  intros Es' W G Jj N SL HS. unfold channel_set_value in Es'.
+  destruct (find_chan (c_relays c) 0 ch) as [[a r]|] eqn:EFC.
+  2:{ assert (P : passive s s') by (subst s'; apply passive_set_result).
+      destruct (pa_outs _ _ P) as (b & Eb & NGb). exists b. split; auto. apply nofin_noghost; auto. }
+  destruct (find_chan_some _ _ _ _ _ EFC) as [Hr Er]. pose proof (wf_chan _ W r Hr) as Hc. rewrite Er in *.
+  remember (set_duration_timer e c ch v (s32 dur) sender s) as s1 eqn:Es1.
+  pose proof (passive_chan_set_value c (r_gpio r) v ch s1) as P12.
+  destruct (chan_set_value c (r_gpio r) v ch s1) as [s2 ok]. cbn [fst] in *.
+  assert (P2' : passive s2 s') by (subst s'; apply passive_set_result).
+  pose proof (passive_trans _ _ _ P12 P2') as P1'.
+  assert (N1 : NW s1) by (eapply NW_passive; eauto).
+  assert (SL1 : Slack S (outs s1)) by (eapply Slack_frame; [apply frame_passive; exact P1'|auto]).
+  pose proof (s32_range dur).
+  destruct (sdt_nofin e S c ch v (s32 dur) sender s s1 Es1 W G Jj Hc ltac:(lia) N1 SL1 HS) as (a1 & O1 & NF1).
+  destruct (pa_outs _ _ P1') as (b & Eb & NGb). exists (b ++ a1). split; [rewrite Eb, O1, app_assoc; reflexivity|].
+  apply nofin_app; [apply nofin_noghost; auto|auto].
+Qed.
+Lemma rsw_nofin e S c port hi s s' :
+  s' = relay_switch e c port hi s ->
+  wf_cfg c -> Good s -> J e S s -> NW s' -> Slack S (outs s') -> 0 <= S ->
+  exists add, outs s' = add ++ outs s /\ nofin_ch (last_chan (c_relays c) port (-1)) (now s) add.
+Proof.
+  intros Es' W G Jj N SL HS. unfold relay_switch in Es'. set (ch := last_chan (c_relays c) port (-1)) in *.
+  destruct (ch <? 0) eqn:Ec; [subst s'; exists []; split; [reflexivity|intros tcb tg t0 dr u0 u []]|].
+  apply Z.ltb_ge in Ec.
+  destruct (last_chan_spec (c_relays c) port (-1) (or_intror Logic.I)) as [E|(r & Hr & Er & _)]; [fold ch in E; lia|].
+  fold ch in Er. pose proof (wf_chan _ W r Hr) as Hc. rewrite Er in Hc.
+  destruct (cf_t2 consts_ok) as [CT1 CT2].
+  set (hi1 := if _ && _ && _ && _ then HI else hi) in *.
+  set (hi2 := if hi1 =? 255 then _ else hi1) in *.
+  assert (Lt : (ch <? ST_T2_COUNT) = true) by (apply Z.ltb_lt; lia). rewrite Lt in Es'.
+  remember (set_ram_t2 (setz (ram_t2 s) ch 0) s) as s0 eqn:Es0.
+  assert (P0 : passive s s0) by (subst s0; apply passive_set_ram_t2).
+  remember (set_duration_timer e c ch hi2 0 0 s0) as s1 eqn:Es1.
+  remember (relay_hi c port hi2 s1) as s2 eqn:Es2.
+  assert (P12 : passive s1 s2) by (subst s2; apply passive_relay_hi).
+  assert (P2' : passive s2 s') by (subst s'; apply passive_value_changed).
+  pose proof (passive_trans _ _ _ P12 P2') as P1'.
+  assert (N1 : NW s1) by (eapply NW_passive; eauto).
+  assert (SL1 : Slack S (outs s1)) by (eapply Slack_frame; [apply frame_passive; exact P1'|auto]).
+  destruct (JF_passive e S _ _ P0 G Jj) as [J0 _].
+  destruct (sdt_nofin e S c ch hi2 0 0 s0 s1 Es1 W (Good_passive _ _ P0 G) J0 Hc ltac:(lia) N1 SL1 HS) as (a1 & O1 & NF1).
+  destruct (pa_outs _ _ P1') as (b & Eb & NGb). destruct (pa_outs _ _ P0) as (a0 & O0 & NG0).
+  assert (Hn : now s0 = now s) by (subst s0; reflexivity). rewrite Hn in NF1.
+  exists (b ++ a1 ++ a0). split; [rewrite Eb, O1, O0, !app_assoc; reflexivity|].
+  apply nofin_app; [apply nofin_noghost; auto|apply nofin_app; [auto|apply nofin_noghost; auto]].
+Qed.
+Lemma cmd_step_nofin e S c s x ch :
+  wf_cfg c -> wf_ev x -> Good s -> J e S s -> cmd_on c x ch -> NW (step e c s x) -> Slack S (outs (step e c s x)) -> 0 <= S ->
+  exists add, outs (step e c s x) = add ++ outs s /\ nofin_ch ch (now s) add.
+Proof.
+  intros W Wx G Jj Cm N SL HS. unfold step in *.
+  set (s1 := match x with ESet _ _ _ _ => _ | _ => _ end) in *.
+  assert (P : passive s1 (emit (st_line c s1) s1)) by (apply passive_emit; exact Logic.I).
+  assert (N1 : NW s1) by (eapply NW_passive; eauto).
+  assert (SL1 : Slack S (outs s1)) by (eapply Slack_frame; [apply frame_passive; exact P|auto]).
+  cut (exists add, outs s1 = add ++ outs s /\ nofin_ch ch (now s) add).
+  { intros (a1 & O1 & NF1). exists (st_line c s1 :: a1). split; [cbn [outs emit set_outs]; rewrite O1; reflexivity|].
+    intros tcb tg t0 dr u0 u [E|H]; [discriminate|eapply NF1; eauto]. }
+  destruct x; cbn [cmd_on] in Cm; try contradiction; unfold s1 in *.
+  - destruct Cm as (Eu & _). rewrite Eu in *. eapply csv_nofin; eauto.
+  - destruct Cm as (El & _). rewrite <- El. eapply rsw_nofin; eauto.
+Qed.
+
+(* C07_cancel in full: a command on ch at time t1 (start of its handling): every switch-back of ch that is in the trace
+   afterwards and was not there before belongs to a timer armed at or after t1 *)
+Theorem cancel_full_thm e c pre x post ch :
+  wf_cfg c -> Forall wf_ev (pre ++ x :: post) -> NWrun e c (start e c) (pre ++ x :: post) -> cmd_on c x ch ->
+  let s1 := run_from e c (start e c) pre in
+  forall tcb tg t0 dur u0 u, In (GFinish tcb ch tg t0 dur u0 u) (outs (run_from e c (start e c) (pre ++ x :: post))) ->
+    In (GFinish tcb ch tg t0 dur u0 u) (outs s1) \/ now s1 <= t0.
+Proof.
+  intros W Wev N Cm s1 tcb tg t0 dur u0 u H.
+  destruct (cancel_thm e c pre x post ch W Wev N Cm tcb tg t0 dur u0 u H) as [Hin|Hl]; auto.
+  fold s1 in Hin.
+  destruct (slack_exists (outs (step e c s1 x))) as (S & HS & SL).
+  pose proof Wev as Wev'. apply Forall_app in Wev'. destruct Wev' as [Wpre Wxp]. inversion Wxp as [|? ? Wx Wpost]; subst.
+  pose proof N as N'. apply NWrun_app in N'. destruct N' as [Npre Nxp]. fold s1 in Nxp.
+  pose proof (Npre 0%nat) as N0. cbn in N0.
+  destruct (run_outs e c pre (start e c) Wpre) as (a1 & E1). fold s1 in E1.
+  destruct (step_outs e c s1 x Wx) as (ax & Ex).
+  assert (SL1 : Slack S (outs s1)) by (rewrite Ex in SL; eapply Slack_app; eauto).
+  assert (SL0 : Slack S (outs (start e c))) by (rewrite E1 in SL1; eapply Slack_app; eauto).
+  destruct (run_J e S c pre (start e c) W Wpre (start_good e c W N0) (start_J e S c W N0 SL0 HS) Npre SL1 HS) as (G1 & J1).
+  fold s1 in G1, J1.
+  apply NWrun_cons in Nxp. destruct Nxp as [N2 _].
+  destruct (cmd_step_nofin e S c s1 x ch W Wx G1 J1 Cm N2 SL HS) as (add & Oa & NF).
+  rewrite Oa in Hin. apply in_app_or in Hin. destruct Hin as [Hin|Hin]; auto. right. eapply NF; eauto.
 Qed.
